@@ -254,6 +254,14 @@ impl TransactionManager {
                 continue;
             }
             if other_info.state == TxState::Committed {
+                // A writer that committed at or before our start epoch is not
+                // concurrent with us: its version is part of our snapshot.
+                if committed
+                    .get(other_tx)
+                    .is_some_and(|e| e.as_u64() <= our_start_epoch.as_u64())
+                {
+                    continue;
+                }
                 // Check if any of our writes conflict with their writes
                 for entity in &our_write_set {
                     if other_info.write_set.contains(entity) {
